@@ -1601,6 +1601,25 @@ C08_RECONSTRUCT = dict(
            ("np.clip(__a, __lo, __hi)", "map (qclip {lo} {hi}) {a}", _QV, {"a": _QV, "lo": "qnum", "hi": "qnum"})]
           + _C08_LINALG2[:1] + _C08_LINALG[:2] + _C08_SELF + _C08_SCALAR + _C08_VEC + _C08_VEC2[:4] + _C08_MAT[:6],
 )
+# _update / encode_obs on the observation store of the object (pyobs: the four lists, the three defaultdict(list) index dicts)
+_OBS = dict(
+    file="src/batchie/models/sparse_combo.py", cls="LegacySparseDrugComboImpl", out="SrcGibbs.v", imports="Lib.Num Model.Gibbs", overload=True,
+    fields={"y": ("pyobs", _QV, "o_y {obj}", "set_o_y {obj} {val}"), "cline": ("pyobs", _ZV, "o_cl {obj}", "set_o_cl {obj} {val}"),
+            "dd1": ("pyobs", _ZV, "o_dd1 {obj}", "set_o_dd1 {obj} {val}"), "dd2": ("pyobs", _ZV, "o_dd2 {obj}", "set_o_dd2 {obj} {val}")})
+C08_UPDATE = dict(
+    _OBS, func="_update", name="src_update", pyparams=["self", "y", "cl", "dd1", "dd2"],
+    params=[("self", "pyobs"), ("y", "qnum"), ("cl", "Z"), ("dd1", "Z"), ("dd2", "Z")], returns="pyobs", implicit_return="{self}",
+    vars={"n": "nat"},
+    prims=[("self.n_obs()", "length (o_y self')", "nat")],                     # n_obs = len(self.y) (linked: C08_N_OBS)
+    effects=[("self.cline_idxs[__k].append(__n)", "self'", "set_o_cidx {state} (dl_append (o_cidx {state}) {k} {n})"),
+             ("self.dd1_idxs[__k].append(__n)", "self'", "set_o_1idx {state} (dl_append (o_1idx {state}) {k} {n})"),
+             ("self.dd2_idxs[__k].append(__n)", "self'", "set_o_2idx {state} (dl_append (o_2idx {state}) {k} {n})")],
+)
+C08_ENCODE_OBS = dict(
+    _OBS, func="encode_obs", name="src_encode_obs", pyparams=["self"], params=[("self", "pyobs")],
+    returns="(list qnum * list Z * list Z * list Z)", vars={"y": _QV, "cline": _ZV, "dd1": _ZV, "dd2": _ZV},
+    prims=[("np.array(__l, copy=False)", "{l}", _QV, {"l": _QV}), ("np.array(__l, copy=False)", "{l}", _ZV, {"l": _ZV})],
+)
 C08_ALL = [C08_N_OBS, C08_GET, C08_MCMC_STEP, C08_ALPHA, C08_PREC_OBS, C08_PREC_W0, C08_W0_STEP, C08_V0_STEP, C08_PREC_V0,
-           C08_PREC_V2, C08_PREC_V1, C08_PREC_W, C08_W_STEP, C08_V2_STEP, C08_V1_STEP, C08_RECONSTRUCT]
+           C08_PREC_V2, C08_PREC_V1, C08_PREC_W, C08_W_STEP, C08_V2_STEP, C08_V1_STEP, C08_RECONSTRUCT, C08_UPDATE, C08_ENCODE_OBS]
 ALL += C08_ALL
